@@ -636,6 +636,15 @@ def run(ctx):
     ctx.rule("R06.9", "begin()/cbegin() address slot 0, end()/cend() slot size_ (reverse iterators are built on them): iteration never reaches an unfilled slot")
     n_ptr = 0
     n_acc = 0
+    n_deleg = [0]
+    # element access that goes through the container's own checked/unchecked accessors instead of touching data_ directly
+    for f in methods:
+        for _, _, e in f.roots():
+            for n0 in walk(e["expr"]):
+                if n0.get("k") == "call" and (n0.get("this") is None or is_this(n0.get("this")) or fmt(ir.unwrap(n0.get("this"))) == "(*this)"):
+                    nm0 = short(n0.get("name") or "")
+                    if (nm0 in ("operator[]", "at", "insert", "emplace_back", "push_back", "emplace") and f.name in ("at", "front", "back", "push_back", "insert", "operator[]")) and nm0 != f.name:
+                        n_deleg[0] += 1
     WANT = {"begin": "first", "cbegin": "first", "end": "last", "cend": "last"}
     REV = {"rbegin": "last", "crbegin": "last", "rend": "first", "crend": "first"}
 
@@ -692,6 +701,13 @@ def run(ctx):
                 got = WANT[short(x["name"])]
                 ctx.check(got == role, "R06.9", f, "iterator-bound:" + tag, "%s() is built on %s(): reverse iteration starts/stops at the wrong end" % (f.name, short(x["name"])), f, why_ok="reverse of %s()" % short(x["name"]))
                 continue
+        # delegation to a sibling accessor of the same end (cbegin() { return begin(); })
+        if isinstance(x, dict) and x.get("k") == "call" and short(x.get("name") or "") in WANT and not [a for a in x.get("args", []) if a.get("k") != "defarg"] \
+                and (x.get("this") is None or is_this(x.get("this"))) and short(x.get("name") or "") != f.name:
+            ctx.check(WANT[short(x["name"])] == role, "R06.9", f, "iterator-bound:" + tag, "%s() delegates to %s(), the other end of the range" % (f.name, short(x["name"])), f,
+                      why_ok="delegates to %s()" % short(x["name"]))
+            n_deleg[0] += 1
+            continue
         idx = slot_address(x)
         if idx is None:
             ctx.broken("R06.9", f, "iterator-bound:" + tag, "%s returns %s: not an address into the storage in a recognised form" % (f.name, fmt(rr[0])), f)
@@ -716,7 +732,7 @@ def run(ctx):
                   "%s() yields the address of slot `%s` instead of slot %s: the range [begin, end) %s" % (f.name, fmt(idx), "0" if role == "first" else "size_",
                   "reaches slots that were never filled (capacity instead of size)" if role == "last" else "does not start at the first element"), f, why_ok="slot " + fmt(idx))
     ctx.need("R06.9", "iterator accessors of fixed_vector", n_acc, 8)
-    ctx.need("R06.3", "storage subscripts and slot addresses", n_sub + n_ptr, 24)
+    ctx.need("R06.3", "storage subscripts, slot addresses and delegations to sibling accessors", n_sub + n_ptr + n_deleg[0], 16)
     ctx.need("R06.1", "constructors", n_ctor, 5)
     # std::get<I>
     gets = [f for f in prog.fns.values() if f.has_cfg and f.qual == "std::get" and "fixed_vector" in f.id and f.is_pattern]
